@@ -351,6 +351,8 @@ class Check:
         self.sigs = set()
         self.evaluations = 0
         self.inconclusive = []
+        self.soft_inconclusive = []   # single cases that could not be decided (backstop fired, slow progress): tolerated up to a fraction
+        self.soft_fraction = 0.2
         self.assumptions = []
         self.extra = {}
         self.rule = ""
@@ -392,6 +394,10 @@ class Check:
     def inconc(self, why):
         self.inconclusive.append(why)
 
+    def inconc_case(self, why):
+        """One case of many was inconclusive: recorded in the evidence; the check as a whole becomes inconclusive only when too many are."""
+        self.soft_inconclusive.append(why)
+
     # -- verdict --
     def finish(self, min_evals=1, require=None):
         """require: dict name->minimum of self.stats that must have been observed, else inconclusive."""
@@ -416,6 +422,8 @@ class Check:
                     self.inconc("oracle input '%s' observed %d < %d" % (name, self.stats.get(name, 0), mnv))
         if self.evaluations < min_evals:
             self.inconc("only %d evaluations (< %d)" % (self.evaluations, min_evals))
+        if self.soft_inconclusive and len(self.soft_inconclusive) > max(3, self.soft_fraction * max(1, self.evaluations)):
+            self.inconc("%d of %d cases were individually inconclusive (more than %d%%)" % (len(self.soft_inconclusive), self.evaluations, int(self.soft_fraction * 100)))
         distinct = len(self.sigs) if self.distinct is None else int(self.distinct)
         cov = {
             "evaluations": int(self.evaluations),
@@ -434,6 +442,8 @@ class Check:
             cov["anomalies_of_other_properties"] = {"%s:%s" % k: c for k, c in self.foreign.items()}
         if self.inconclusive:
             cov["inconclusive"] = self.inconclusive[:20]
+        if self.soft_inconclusive:
+            cov["inconclusive_cases"] = {"count": len(self.soft_inconclusive), "examples": self.soft_inconclusive[:8]}
         if kn:
             cov["known_findings_seen"] = [k for k, _, _ in kn]
         cov.update(self.extra)
@@ -448,6 +458,8 @@ class Check:
               (self.prop, self.tier, self.seed, self.evaluations, distinct, len(new), len(kn), time.time() - self.t0))
         for k in sorted(self.stats):
             print("  observed %-34s %d" % (k, self.stats[k]))
+        if self.soft_inconclusive:
+            print("  %d individual case(s) inconclusive (tolerated), e.g. %s" % (len(self.soft_inconclusive), self.soft_inconclusive[0][:200]))
         if new:
             return 1
         if self.inconclusive or not self.samples or distinct < 2:
